@@ -13,7 +13,7 @@ from ..runner import new_result, viol, bump, case_seed
 
 PID = 'C15'
 LEVEL = 'exploration'
-MODELS = ['sir', 'sis', 'threshold', 'watts', 'kofn', 'dist2', 'global', 'sirs_mixed', 'lazy', 'seir_econ', 'slow_sir']
+MODELS = ['sir', 'sis', 'threshold', 'watts', 'kofn', 'dist2', 'global', 'sirs_mixed', 'lazy', 'seir_econ', 'slow_sir', 'twoscale']
 RULE = ('models: SIR / SIS through this API, fixed-threshold and Watts fractional-threshold contagion, k-of-n, distance-2 influence, global-field '
         'rates (influence set = all nodes), SIRS with heterogeneous non-dyadic rates; graphs n<=12 (e2) and every atlas graph with <=4 nodes (e3, quick; '
         '<=5 thorough); influence sets computed conservatively so the premise of the statement holds.  Non-trivial = >=1 event; distinct = (kind, model, '
@@ -22,7 +22,7 @@ ASSUMPTIONS = ['the harness influence-set functions cover every node whose rate 
 BUDGET = {'quick': 160, 'thorough': 1500}
 CHUNK = {'quick': 10, 'thorough': 40}
 CASE_TIMEOUT = 300
-REQUIRED = ['runs_reporting_a_strict_subset_of_statuses', 'null_events_seen', 'steps_law_checked', 'clock_draws_checked', 'selections_checked', 'thresholds_checked', 'chooser_calls_checked', 'terminations_checked', 'one_shot_influence_iterables', 'falsy_status_label_runs',
+REQUIRED = ['clock_totals_checked_after_the_fast_scale_left', 'runs_reporting_a_strict_subset_of_statuses', 'null_events_seen', 'steps_law_checked', 'clock_draws_checked', 'selections_checked', 'thresholds_checked', 'chooser_calls_checked', 'terminations_checked', 'one_shot_influence_iterables', 'falsy_status_label_runs',
             'counts_follow_statuses', 'e3_states_expanded', 'rate_zero_after_event_seen']
 
 
@@ -107,6 +107,15 @@ def model(name, params):
                 return a * 1e-10 * sum(1 for v in G.neighbors(n) if s[v] == 'I') + 3e-11
             return 0
         return rate, (lambda G, n, s, p=None: 'I' if s[n] == 'S' else 'R'), (lambda G, n, s, p=None: list(G.neighbors(n))), ['S', 'I', 'R']
+    if name == 'twoscale':
+        # fast and slow states: a node in F fires at a rate 1e17 times the others and then moves to B, whose rate is small but not zero
+        def rate(G, n, s, p=None):
+            if s[n] == 'F':
+                return a * 1e17
+            if s[n] == 'B':
+                return b * (1 + 0.5 * sum(1 for v in G.neighbors(n) if s[v] == 'C'))
+            return 0
+        return rate, (lambda G, n, s, p=None: {'F': 'B', 'B': 'C'}[s[n]]), (lambda G, n, s, p=None: list(G.neighbors(n))), ['B', 'F', 'C']
     if name == 'seir_econ':
         # an economical influence-set function, as the docstring invites ("leave out any nodes that it wouldn't have affected"): it looks at
         # what the node has just become.  S->E changes nobody's rate (empty set); E->I and I->R change the rates of the susceptible neighbours
@@ -139,14 +148,18 @@ def gen_cases(tier, seed):
         m = MODELS[k % len(MODELS)]
         out.append({'kind': 'e2', 'graph': desc, 'model': m, 'params': [r.choice([0.3, 0.7, 1.0, 2.3]), r.choice([0.3, 1.0, 1.9])],
                     'IC': [r.choice([0, 0, 1]) for _ in range(desc['n'])], 'tmin': r.choice([0, -2, 1.5]),
-                    'tmax': r.choice(['inf', 1.0, 3.0, 2]) if m in ('sir', 'threshold', 'watts', 'kofn', 'global', 'slow_sir') else r.choice([0.5, 1.5, 2]),     # span; tmin=-2 with span 2: horizon exactly 0
+                    'tmax': r.choice(['inf', 1.0, 3.0, 2]) if m in ('sir', 'threshold', 'watts', 'kofn', 'global', 'slow_sir', 'twoscale') else r.choice([0.5, 1.5, 2]),     # span; tmin=-2 with span 2: horizon exactly 0
                     'full': r.random() < 0.5, 'seed': cs, 'infl_form': r.choice(['list', 'tuple', 'set', 'iterator', 'generator', 'dictkeys']),
                     'label_map': r.choice(['str', 'int0', 'rev_int', 'bool', 'emptystr']), 'return_subset': r.random() < 0.3, 'ic_extra': r.random() < 0.3})
+        if m == 'twoscale':
+            out[-1]['tmin'] = 0          # waiting times of order 1e-17 are absorbed by any other start time (ties)
     nmax = 4 if q else 5
     k = 0
     for desc in gen.atlas(nmax, 2):
         for m in MODELS:
             k += 1
+            if m == 'twoscale':
+                continue          # accept thresholds of 1e-17 are not branches worth steering
             cs = case_seed(seed, PID + 'e3', k)
             r = random.Random(cs)
             d = dict(desc)
@@ -252,12 +265,17 @@ def run_case(case):
         fails, counters = [], {}
         try:
             with rngprobe.monitor(seed=case['seed']) as px:
+                px.starve_after = 2000 * (G.order() + 1)
                 out = call(case['full'])
+        except rngprobe.SelectionStarved as e:
+            # bounded progress: with a rejection bound equal to the largest current rate a selection needs at most N proposals on average
+            viol(res, tag + '|selection_starved_by_a_rejection_bound_far_above_every_current_rate', {'consecutive_rejections': e.n, 'nodes': G.order(), 'params': case['params']})
+            return res
         except Exception as e:
             viol(res, tag + '|%s|exception:%s' % ('tmax_inf' if tmax == float('inf') else 'tmax_finite', simcase.exc_key(e)), {'err': repr(e)})
             return res
         try:
-            events = generic_e2.e2_complex(G, rate_plain, chooser_plain, IC, tmin, tmax, px.log, chooser_calls, fails, counters)
+            events = generic_e2.e2_complex(G, rate_plain, chooser_plain, IC, tmin, tmax, px.log, chooser_calls, fails, counters, two_scale=(case['model'] == 'twoscale'))
         except ParseError as e:
             res['inconclusive'] = 'draw protocol of Gillespie_complex_contagion not recognised: %s' % e
             return res
@@ -283,7 +301,7 @@ def run_case(case):
             except rngprobe.DepthExceeded:
                 aborted, out = True, None
         annot, fails = {}, []
-        events = generic_e2.e2_complex(G, rate_plain, chooser_plain, IC, tmin, tmax, px.log, list(chooser_calls), fails, ctr, annot, visited, partial=aborted)
+        events = generic_e2.e2_complex(G, rate_plain, chooser_plain, IC, tmin, tmax, px.log, list(chooser_calls), fails, ctr, annot, visited, partial=aborted, two_scale=(case['model'] == 'twoscale'))
         allfails.extend(fails)
         nruns[0] += 1
         if not aborted and not fails:
